@@ -32,6 +32,10 @@ AccOK(rec) ==
       [] k = "changes" ->
            a.AbsFiles = [i \in 1..Len(Val(rec, "Files")) |-> <<47, 115, 114, 118, 47, 112, 111, 111, 108, 47>> \o Val(rec, "Files")[i][5]]
       [] k = "srcpara" -> a.Maintainers = <<Val(rec, "Maintainer")>> \o Val(rec, "Uploaders")
+      [] k = "best" ->
+           \* the preferred list: SHA-256 when the document has one, else SHA-512, else nothing
+           a.Checksums = (IF Val(rec, "ChecksumsSha256") # <<>> THEN ExpectedField("sums:sha256", Val(rec, "ChecksumsSha256"))
+                          ELSE IF Val(rec, "ChecksumsSha512") # <<>> THEN ExpectedField("sums:sha512", Val(rec, "ChecksumsSha512")) ELSE <<>>)
       [] k = "packages" -> a.SourcePackage = (IF Val(rec, "Source") = <<>> THEN Val(rec, "Package") ELSE Split(Val(rec, "Source"), SP)[1])
       [] OTHER -> TRUE
 
